@@ -78,18 +78,45 @@ Definition correctionF (fw fh tw th x y w h : Z) : option (Z * Z * Z * Z) :=
   | _, _ => None
   end.
 
-(* the geometry rfbScaledScreenUpdateRect(screen W x H, ptr w' x h', x0,y0,w0,h0) works with:
-   destination rectangle (x1,y1,w1,h1), source origin (sx0,sy0), block size (areaX, areaY) *)
-Definition upd_geomF (W H w' h' x0 y0 w0 h0 : Z) : option (list Z) :=
+(* the geometry rfbScaledScreenUpdateRect(screen W x H, ptr w' x h', x0,y0,w0,h0) works with, as a
+   flat list [x1; y1; w1; h1; areaX; areaY] ++ sxs ++ sys ++ cxs ++ cys (see ScaleDefs.geom).
+   grid_fix = false: the code as it is (block of destination offset i at ScaleX(x1) + i*areaX, colour
+   map sample at (x1+i)*areaX); true: proposed repair notes/fix_C17_2.diff (both at ScaleX(x1+i)). *)
+Fixpoint seqZ (n : nat) (k : Z) : list Z := match n with O => [] | S m => k :: seqZ m (k + 1) end.
+
+Fixpoint all_some (l : list (option Z)) : option (list Z) :=
+  match l with
+  | [] => Some []
+  | Some v :: t => match all_some t with Some r => Some (v :: r) | None => None end
+  | None :: _ => None
+  end.
+
+Definition origins (grid_fix : bool) (from to x1 w1 ax : Z) : option (list Z * list Z) :=
+  if grid_fix
+  then match all_some (map (fun i => scaleF from to (x1 + i)) (seqZ (Z.to_nat w1) 0)) with
+       | Some l => Some (l, l)
+       | None => None
+       end
+  else match scaleF from to x1 with
+       | Some sx0 => Some (map (fun i => sx0 + i * ax) (seqZ (Z.to_nat w1) 0),
+                           map (fun i => (x1 + i) * ax) (seqZ (Z.to_nat w1) 0))
+       | None => None
+       end.
+
+Definition upd_geomF (grid_fix : bool) (W H w' h' x0 y0 w0 h0 : Z) : option (list Z) :=
   match correctionF W H w' h' x0 y0 w0 h0 with
   | None => None
   | Some (x1, y1, w1, h1) =>
-    if (w1 <=? 0) || (h1 <=? 0) then Some [x1; y1; w1; h1; 0; 0; 0; 0]   (* no destination pixel: the
-         values of x0, y0, areaX, areaY (possibly indefinite) are never used *)
+    if (w1 <=? 0) || (h1 <=? 0) then Some [x1; y1; w1; h1; 0; 0]   (* no destination pixel: the values
+         of x0, y0, areaX, areaY (possibly indefinite) are never used *)
     else
-    match scaleF w' W x1, scaleF h' H y1, scaleF w' W 1, scaleF h' H 1 with
-    | Some sx0, Some sy0, Some ax, Some ay => Some [x1; y1; w1; h1; sx0; sy0; ax; ay]
-    | _, _, _, _ => None
+    match scaleF w' W 1, scaleF h' H 1 with
+    | Some ax, Some ay =>
+      match origins grid_fix w' W x1 w1 ax, origins grid_fix h' H y1 h1 ay with
+      | Some (sxs, cxs), Some (sys, cys) => Some ([x1; y1; w1; h1; ax; ay] ++ sxs ++ sys ++ cxs ++ cys)
+      | _, _ => None
+      end
+    | _, _ => None
     end
   end.
 
